@@ -20,4 +20,22 @@ def ModEnt.o1 : ModEnt → Sexp
 
 def Case.o1 (c : Case) : Sexp := Sexp.mk "o1" (c.modules.map ModEnt.o1)
 
+/-- the integer of the case extra `(seed N)`, 0 when absent -/
+def Case.seed (c : Case) : Nat :=
+  match c.extra? "seed" with
+  | some [.int z] => z.toNat
+  | _ => 0
+
+/-- `(o1text (text "file" "TEXT")*)`: every `module` (AST) entry rendered with the lay-out
+    `Trivia.ofSeed` derived from the case's `(seed N)` extra and the entry's index;
+    `tmodule` entries pass through unchanged -/
+def Case.o1text (c : Case) : Sexp :=
+  let seed := c.seed
+  Sexp.mk "o1text" (c.modules.zipIdx.map fun (e, i) =>
+    match e with
+    | .text file src => Sexp.mk "text" [.str file, .str src]
+    | .ast _ file m =>
+      Sexp.mk "text" [.str file,
+        .str (Print.render (Print.printModule m) (Print.Trivia.ofSeed (Print.mix seed i)))])
+
 end PyxisVerif
